@@ -296,21 +296,30 @@ fn handle_item(
         }
         Item::MixinCall(name, args, body, pos) => {
             if let Some(mixin) = scope.get_mixin(&name.into()) {
-                let mixin = mixin
+                let mut mixin = mixin
                     .get(scope.clone(), args, pos, file_context)
                     .map_err(|e| e.called_from(pos, name))?;
                 mixin.define_content(&scope, body.as_ref());
-                handle_parsed(mixin.body, dest, mixin.scope, file_context)
-                    .map_err(|e: Error| match e {
-                        Error::Invalid(err, _) => err.at(pos.clone()),
-                        Error::BadCall(msg, pos, p2) => {
-                            Error::BadCall(msg, pos.in_call(name), p2)
-                        }
-                        e => {
-                            let pos = pos.in_call(name);
-                            Error::BadCall(e.to_string(), pos, None)
-                        }
-                    })?;
+                let loaded = mixin.loaded.take();
+                let result = handle_parsed(
+                    mixin.body,
+                    dest,
+                    mixin.scope,
+                    file_context,
+                );
+                if let Some(loaded) = loaded {
+                    file_context.unlock_loading(&loaded);
+                }
+                result.map_err(|e: Error| match e {
+                    Error::Invalid(err, _) => err.at(pos.clone()),
+                    Error::BadCall(msg, pos, p2) => {
+                        Error::BadCall(msg, pos.in_call(name), p2)
+                    }
+                    e => {
+                        let pos = pos.in_call(name);
+                        Error::BadCall(e.to_string(), pos, None)
+                    }
+                })?;
             } else {
                 return Err(Error::BadCall(
                     "Undefined mixin.".into(),
